@@ -1,7 +1,7 @@
 ------------------------------ MODULE DiffGen ------------------------------
 (* Behaviour generation from Diff (C19): every state of the perturbation phase is printed   *)
 (* as one case {a, b, np, igs} where igs is the family of ignore-path sets offered for the   *)
-(* pair (all of IgnSets(a, b), or a random sample of MaxIgs of them in simulation runs).     *)
+(* pair (all of IgnSets(a, b), or the empty set plus a random sample of MaxIgs of them).     *)
 (* The Go driver (harness/cmd/altops diffexec) replays each case on simple and gen data in   *)
 (* both argument orders.                                                                     *)
 EXTENDS Diff, Json, Randomization
@@ -9,7 +9,7 @@ CONSTANT MaxIgs
 Emit == phase = "pert" =>
           PrintT(<<"CASE", ToJson([a |-> a, b |-> b, np |-> np,
                                    igs |-> IF MaxIgs = 0 THEN IgnSets(a, b)
-                                           ELSE RandomSubset(Min2(MaxIgs, Cardinality(IgnSets(a, b))), IgnSets(a, b))])>>)
+                                           ELSE {{}} \cup RandomSubset(Min2(MaxIgs, Cardinality(IgnSets(a, b))), IgnSets(a, b))])>>)
 \* touched is bookkeeping of the design check only: one case per (a, b)
 View == <<a, b, phase>>
 =============================================================================
